@@ -1022,7 +1022,7 @@ class Evaluator:
             and isinstance(s.target, (ast.Tuple, ast.List))
         # ... and the search idiom `for cand in (A, B): if test(cand): return v` (then a raise / default after the loop)
         search = it.op in ("tuple", "list") and 1 <= len(it.args[0]) <= 6 and isinstance(s.target, ast.Name) \
-            and _direct_jumps(s.body, (ast.Return,))
+            and _direct_jumps(s.body, (ast.Return,)) and all(x.op != "const" for x in it.args[0])
         # ... and the alias loop `for opt in (self.a, self.b): opt.step()` over a few objects (not a loop over constants, which
         # enumerates cases and is summarised as a loop)
         alias = it.op in ("tuple", "list") and 1 <= len(it.args[0]) <= 4 and isinstance(s.target, ast.Name) \
